@@ -205,6 +205,17 @@ func (s *c03State) check() bool {
 
 			return false
 		}
+		// ... and with a message that has the same content in another encoding (canonical bytes: zero padding, no
+		// leading bits, nothing behind the message): Equal is about content
+		canon := new(stun.Message)
+		if err := stun.Decode(s.canonical(), canon); err != nil {
+			fatalHarness("C03 canonical form does not decode: " + err.Error())
+		}
+		if !m.Equal(canon) || !canon.Equal(m) {
+			s.fail("equal", "Equal is false between the message and a message with the same type, id and attributes in canonical encoding")
+
+			return false
+		}
 	}
 
 	return true
@@ -268,7 +279,7 @@ func randIP(r *gen.Rand) net.IP {
 // step applies one random building operation. Returns false to stop the sequence.
 func (s *c03State) step() bool {
 	r, m := s.r, s.m
-	switch r.Intn(37) {
+	switch r.Intn(38) {
 	case 0, 1, 2, 3: // Add
 		t := r.AttrType()
 		n := r.ValueLen(3000)
@@ -575,6 +586,7 @@ func (s *c03State) step() bool {
 	case 20: // Build with setters (resets attributes, keeps Type and TransactionID fields)
 		var setters []stun.Setter
 		var names []string
+		var lateTypeSetter stun.Setter
 		newMethod, newClass, newTID := s.method, s.class, s.tid
 		var newAttrs []shAttr
 		if r.Bool() {
@@ -596,6 +608,13 @@ func (s *c03State) step() bool {
 			setters = append(setters, stun.NewTransactionIDSetter(newTID))
 			names = append(names, "tid")
 		}
+		if len(setters) > 0 && names[0] != "tid" && r.Chance(1, 4) {
+			// a second type setter later in the list: setters apply in order, so this is the type of the result
+			newMethod, newClass = uint16(r.Intn(0x1000)), uint8(r.Intn(4))
+			late := stun.NewType(stun.Method(newMethod), stun.MessageClass(newClass))
+			lateTypeSetter = late
+			names = append(names, "...type again at the end")
+		}
 		alias := false
 		for k := r.Intn(4); k > 0; k-- {
 			t, v := r.AttrType(), r.Bytes(r.ValueLen(600))
@@ -605,6 +624,9 @@ func (s *c03State) step() bool {
 			setters = append(setters, stun.RawAttribute{Type: stun.AttrType(t), Value: v})
 			newAttrs = append(newAttrs, shAttr{typ: t, wire: t, val: v, built: true})
 			names = append(names, fmt.Sprintf("raw(%#x,%dB)", t, len(v)))
+		}
+		if lateTypeSetter != nil {
+			setters = append(setters, lateTypeSetter)
 		}
 		s.op("Build(" + strings.Join(names, ",") + ")")
 		if err := m.Build(setters...); err != nil {
@@ -747,6 +769,24 @@ func (s *c03State) step() bool {
 		}
 		m.WriteType()
 		s.method, s.class, s.lead = method, class, 0
+	case 36: // building operations applied to the message a ForEach callback is handed (type and transaction id setters)
+		if len(m.Attributes) == 0 {
+			return true
+		}
+		at := m.Attributes[r.Intn(len(m.Attributes))].Type
+		method, class, id := uint16(r.Intn(0x1000)), uint8(r.Intn(4)), r.TID()
+		s.op(fmt.Sprintf("ForEach(%#x){SetType(%#x,%d);transaction id setter}", uint16(at), method, class))
+		done := false
+		_ = m.ForEach(at, func(mm *stun.Message) error {
+			if !done {
+				done = true
+				mm.SetType(stun.NewType(stun.Method(method), stun.MessageClass(class)))
+				_ = stun.NewTransactionIDSetter(id).AddTo(mm)
+			}
+
+			return nil
+		})
+		s.method, s.class, s.tid, s.lead = method, class, id, 0
 	case 25: // retag an attribute in the struct, then Encode: the wire must carry the new type
 		if len(s.attrs) == 0 {
 			return true
